@@ -5,6 +5,7 @@
    to newVoteSet(n);  run n ops = Some s  says the history ran without a panic
    and ended in state s.  votes_for / occupied are recounts of the slot array. *)
 From Goloop Require Import lib.Bytes Model_VoteSet Proofs_VoteSet.
+From Goloop Require Import Link_C04.
 Open Scope Z_scope.
 
 (* the threshold of the code,  c > n*2/3  in Go int arithmetic, is  3c > 2n *)
@@ -91,3 +92,34 @@ Theorem C04_no_panic : forall n ops s, run n ops = Some s ->
   (exists s' r, query s = Some (s', r)).
 Proof. exact no_panic. Qed.
 Print Assumptions C04_no_panic.
+
+(* ---- kernel links (Link_C04.v).  hasOverTwoThirds and overTwoThirdsDecision are
+   re-generated from consensus/voteset.go on every run (tools/go2coq); the threshold
+   of the model used in all theorems above IS the threshold of the current Go code,
+   for every slot count a Go slice can have (n <= 2^62-1: len*2 does not overflow) ---- *)
+Theorem C04_kernel_hasOverTwoThirds : forall c n, 0 <= n <= 4611686018427387903 ->
+  over23 c n = hasOverTwoThirds c n.
+Proof. exact over23_is_hasOverTwoThirds. Qed.
+Print Assumptions C04_kernel_hasOverTwoThirds.
+
+Theorem C04_kernel_overTwoThirdsDecision : forall c n, 0 <= n <= 4611686018427387903 ->
+  over23 c n = overTwoThirdsDecision c n.
+Proof. exact over23_is_overTwoThirdsDecision. Qed.
+Print Assumptions C04_kernel_overTwoThirdsDecision.
+
+(* has_over23 is the kernel on (vs.count, len(vs.msgs)); the test of query is the
+   kernel on (best counter, len(vs.msgs)) *)
+Theorem C04_kernel_has_over23 : forall s, nvals s <= 4611686018427387903 ->
+  has_over23 s = hasOverTwoThirds (vs_count s) (nvals s).
+Proof. exact has_over23_is_kernel. Qed.
+Print Assumptions C04_kernel_has_over23.
+
+Theorem C04_kernel_decision_test : forall mx s, nvals s <= 4611686018427387903 ->
+  over23 mx (nvals s) = overTwoThirdsDecision mx (nvals s).
+Proof. exact decision_test_is_kernel. Qed.
+Print Assumptions C04_kernel_decision_test.
+
+(* the operand order the translator recorded (positional calls above rely on it) *)
+Theorem C04_kernel_params : Link_C04.kernel_params_pinned.
+Proof. exact Link_C04.kernel_params_ok. Qed.
+Print Assumptions C04_kernel_params.
